@@ -71,25 +71,39 @@ func genSleep(rt *rapid.T) int64 {
 }
 
 func genSOps(rt *rapid.T, maxOps int, conns int) []SOp {
-	n := rapid.IntRange(3, maxOps).Draw(rt, "nops")
+	n := rapid.IntRange(4, maxOps).Draw(rt, "nops")
+	dpos := rapid.IntRange(1, n-2).Draw(rt, "drain_at") // Drain at this position at the latest
 	var ops []SOp
-	drained := false
+	drained, finalLikely := false, false
 	for i := 0; i < n; i++ {
 		var op SOp
 		w := rapid.IntRange(0, 99).Draw(rt, "w")
+		between := drained && !finalLikely
 		switch {
-		case w < 35 || i == 0:
-			op.K, op.Flag = soOpen, rapid.IntRange(0, 2).Draw(rt, "eos") == 0
-		case w < 55:
-			op.K, op.S, op.Flag = soFinish, rapid.IntRange(0, 15).Draw(rt, "s"), rapid.Bool().Draw(rt, "msg")
-		case w < 67 && (!drained || rapid.IntRange(0, 3).Draw(rt, "redrain") == 0):
+		case !drained && i == dpos:
 			op.K = soDrain
 			drained = true
-		case w < 80 && drained:
+		case between && w < 45:
+			// the interesting window: streams racing between the two GOAWAYs
+			op.K, op.Flag = soOpen, rapid.IntRange(0, 2).Draw(rt, "eos") == 0
+		case between && w < 62:
 			op.K, op.Flag = soAck, rapid.IntRange(0, 5).Draw(rt, "wrong") == 0
-		case w < 90 && drained:
+			finalLikely = !op.Flag
+		case between && w < 75:
 			op.K, op.N = soSleep, genSleep(rt)
-		case w < 94:
+			finalLikely = op.N >= drainTimeout
+		case w < 35 || i == 0:
+			op.K, op.Flag = soOpen, rapid.IntRange(0, 2).Draw(rt, "eos") == 0
+		case w < 58:
+			op.K, op.S, op.Flag = soFinish, rapid.IntRange(0, 15).Draw(rt, "s"), rapid.Bool().Draw(rt, "msg")
+		case w < 66 && (!drained || rapid.IntRange(0, 3).Draw(rt, "redrain") == 0):
+			op.K = soDrain
+			drained = true
+		case w < 76 && drained:
+			op.K, op.Flag = soAck, rapid.IntRange(0, 5).Draw(rt, "wrong") == 0
+		case w < 86 && drained:
+			op.K, op.N = soSleep, genSleep(rt)
+		case w < 92:
 			op.K, op.S = soRST, rapid.IntRange(0, 15).Draw(rt, "s")
 		default:
 			op.K, op.Flag = soOpen, rapid.IntRange(0, 2).Draw(rt, "eos") == 0
@@ -129,12 +143,13 @@ type drainModel struct {
 	drainAt    int64 // instant of the first Drain; -1: none
 	acked      bool  // a correct ack was written
 	ackSettled bool
+	completeAt int64 // first quiescent instant at which the final GOAWAY was out and no handled stream was unfinished; -1: not yet
 	bad        string
 	nt         bool
 }
 
 func newDrainModel(name string, peer *h2peer.Peer, closed func() bool, now func() int64, classes map[string]bool) *drainModel {
-	return &drainModel{name: name, peer: peer, closed: closed, now: now, classes: classes, handled: map[uint32]bool{}, sentAt: map[uint32]int{}, finished: map[uint32]bool{}, drainAt: -1}
+	return &drainModel{name: name, peer: peer, closed: closed, now: now, classes: classes, handled: map[uint32]bool{}, sentAt: map[uint32]int{}, finished: map[uint32]bool{}, drainAt: -1, completeAt: -1}
 }
 
 func (m *drainModel) badf(format string, a ...any) {
@@ -304,11 +319,21 @@ func (m *drainModel) check() {
 	if len(open) > 0 && closed {
 		m.badf("connection closed while handled stream(s) %v are unfinished", open)
 	}
-	if len(open) == 0 && !closed {
-		m.badf("all handled streams finished and the final GOAWAY (%d) was sent, but the connection is still open", g2.LastStreamID)
-	}
-	if len(open) == 0 && closed {
-		m.classes["closed_after_last_stream"] = true
+	if len(open) == 0 {
+		if m.completeAt < 0 {
+			m.completeAt = m.now()
+		}
+		// http2Server lingers up to 1 s before closing its end (it waits for the
+		// client to close first, grpc-go issue 5358); "closes after the last
+		// stream" is therefore asserted as "closed no later than 1 s after".
+		if closed {
+			m.classes["closed_after_last_stream"] = true
+			if m.now() == m.completeAt {
+				m.classes["closed_immediately"] = true
+			}
+		} else if m.now()-m.completeAt >= int64(time.Second) {
+			m.badf("all handled streams finished and the final GOAWAY (%d) was sent %d ns ago, but the connection is still open", g2.LastStreamID, m.now()-m.completeAt)
+		}
 	}
 	if len(open) > 0 {
 		m.classes["draining_with_open_streams"] = true
@@ -394,11 +419,33 @@ func runServer(t *testing.T, p SPlan) (out sOutcome) {
 				m.check()
 			}
 		}
-		synctest.Wait()
-		if m.acked {
-			m.ackSettled = true
+		for _, d := range []time.Duration{0, time.Duration(drainTimeout), time.Second} {
+			time.Sleep(d)
+			synctest.Wait()
+			if m.acked {
+				m.ackSettled = true
+			}
+			m.check()
 		}
-		m.check()
+		// Serve everything that is still open to completion, then the connection must go away.
+		for _, id := range m.unfinished() {
+			if m.bad != "" || m.closed() {
+				break
+			}
+			runDrainOp(m, SOp{K: soFinish, S: 0, Flag: id%4 == 1}, nil, func(id uint32) *transport.ServerStream {
+				mu.Lock()
+				defer mu.Unlock()
+				return byID[id]
+			})
+		}
+		for _, d := range []time.Duration{0, time.Second} {
+			time.Sleep(d)
+			synctest.Wait()
+			m.check()
+		}
+		if m.bad == "" && m.drainAt >= 0 && !m.closed() {
+			m.badf("drained, every stream served, 1 s passed, but the connection is still open")
+		}
 		if v := m.peer.Ledger().Violations("frame.invalid", "goaway.increasing", "stream.after_end", "stream.after_rst", "stream.idle"); len(v) > 0 {
 			m.badf("ledger: %s", v[0])
 		}
@@ -481,7 +528,7 @@ func runDrainOp(m *drainModel, op SOp, drain func(), stream func(uint32) *transp
 }
 
 var sClassOrder = []string{"stream_raced_between_goaways_handled", "stream_after_final_goaway_ignored", "final_goaway_by_ack", "final_goaway_by_5s_timer",
-	"ack_with_wrong_data", "drain_called_twice", "draining_with_open_streams", "closed_after_last_stream", "stream_served_after_final_goaway", "drain_ping_data_changed"}
+	"ack_with_wrong_data", "drain_called_twice", "draining_with_open_streams", "closed_after_last_stream", "closed_immediately", "stream_served_after_final_goaway", "drain_ping_data_changed"}
 
 func serverRun(t *testing.T, p SPlan) vk.Result {
 	out := runServer(t, p)
